@@ -308,6 +308,14 @@ def inSourceTree (g : Graph) (b : Nat) (id : String) : Bool :=
     ((g.links c).map (·.2)).any fun top => (subtreeIds g "sources" top).contains id
   | none => false
 
+/-- is the source *object* `k` somewhere in the source tree of block `b`? (`SourceLinkContainer._accept`, fix
+a440b8d: the source found under the id must be this very object, not merely a source with the same id — e.g. a
+source of an id-keeping copy of the block, or the detached duplicate an id-keeping array copy links) -/
+def inSourceTreeObj (g : Graph) (b : Nat) (k : Nat) : Bool :=
+  match g.child? b "sources" with
+  | some c => ((g.links c).map (·.2)).any fun top => (subtreeKeys g "sources" top).contains k
+  | none => false
+
 /-- `LinkContainer.append` / `SourceLinkContainer.append` -/
 def contAppend (g : Graph) (c : Cont) (key : Key) : Except Err Graph :=
   match c.info.flavour with
@@ -340,7 +348,8 @@ def contAppend (g : Graph) (c : Cont) (key : Key) : Except Err Graph :=
                 | some l => .ok (l.2 == k)
                 | none => .ok false
               | none => .ok false
-          | .sourceLink, some b => .ok (inSourceTree g b id)
+          -- `find_sources(filtr = same id and same HDF5 object)`
+          | .sourceLink, some b => .ok (inSourceTree g b id && inSourceTreeObj g b k)
           | _, _ => .ok false
         match accepted with
         | .error e => .error e
